@@ -27,6 +27,7 @@ ASSUMPTIONS = [
 ]
 
 TOL = F(1, 10 ** 9)
+_LAST = {}     # id(case) -> last driver payload (read by tally)
 
 
 # ----------------------------------------------------------------------------------------------
@@ -143,6 +144,50 @@ def _mk_ola(rng, size, hop, m, normalize, wkind, num, size_given=True, hop_given
     return c
 
 
+def _mk_ola_sig(rng, i):
+    size = rng.randint(1, 8)
+    divs = [h for h in range(1, size + 1) if size % h == 0]
+    cola = i % 3 != 2
+    hop = rng.choice(divs) if cola else rng.randint(1, size)
+    num = rng.choice(["int", "frac", "float", "float"])
+    n = rng.choice([0, 1, size - 1, size, size + 1, rng.randint(0, 30), size + 3 * hop, size + 2 * hop - 1])
+    sig = [_rand_val(rng, num) for _ in range(max(0, n))]
+    mode = rng.choice(["rect_norm", "cola", "cola", "cola_scaled_norm", "random"]) if cola else "random"
+    normalize = False
+    if mode == "rect_norm":
+        wnd, normalize, wkind = None, True, "none"
+    elif mode == "cola":
+        wnd, wkind = {"kind": "seq", "w": _cola_wnd(rng, size, hop)}, rng.choice(["list", "gen", "tuple"])
+    elif mode == "cola_scaled_norm":
+        # a non-negative COLA window times a constant: normalisation divides the constant out again
+        c = size // hop
+        w = [None] * size
+        for j in range(hop):
+            parts = [F(rng.randint(0, 4), 4) for _ in range(c - 1)]
+            parts.append(max(F(0), 1 - sum(parts)))
+            tot = sum(parts)
+            parts = [p / tot for p in parts] if tot else [F(1, c)] * c
+            for k in range(c):
+                w[j + k * hop] = parts[k]
+        scale = rng.choice([2, 3, F(1, 2), 5])
+        wnd, normalize, wkind = {"kind": "seq", "w": [enc(x * scale) for x in w]}, True, "list"
+    else:
+        wk = rng.choice(["none", "list", "callable"])
+        normalize = rng.random() < 0.5
+        wkind = wk
+        if wk == "none":
+            wnd = None
+        elif wk == "callable":
+            wnd = {"kind": "callable", "table": [[m, _rand_wnd(rng, m, num)] for m in sorted({size, hop})], "default": None}
+        else:
+            wnd = {"kind": "seq", "w": _rand_wnd(rng, size, num)}
+    c = {"entry": "ola_sig", "sig": sig, "bsize": size, "bhop": hop,
+         "size": size if rng.random() < 0.5 else None, "hop": hop, "wnd": wnd, "normalize": normalize,
+         "wkind": wkind, "num": num, "route": rng.choice(["stream", "func"])}
+    c["regime"] = _regime(dict(c, blks=[sig], size=size))
+    return c
+
+
 def generate(rng, tier, scale=1):
     cases = []
     quick = tier == "quick"
@@ -211,6 +256,10 @@ def generate(rng, tier, scale=1):
         else:  # declared size differs from the blocks
             blens = [max(1, size + rng.choice([-1, 1]))] * m
             cases.append(_mk_ola(rng, size, hop, m, normalize, wkind, num, blens=blens, size_given=True))
+    # --- blocks -> overlap-add round trip (ties ola_blocks_inverse to Stream.blocks + overlap_add.list) ----
+    nrt = (260 if quick else 5000) * scale
+    for i in range(nrt):
+        cases.append(_mk_ola_sig(rng, i))
     # --- stft wrapper ------------------------------------------------------------------------------
     nst = (450 if quick else 9000) * scale
     for i in range(nst):
@@ -260,7 +309,7 @@ def _split_kwargs(rng, items, style, overrides):
 
 
 def _mk_stft(rng, kind):
-    num = rng.choice(["int", "frac", "frac", "float"])
+    num = rng.choice(["int", "int", "frac", "float", "float"])
     size = rng.randint(1, 6)
     hop = rng.choice([None, size, rng.randint(1, size), rng.randint(1, size)])
     objs = {}
@@ -322,7 +371,7 @@ def _mk_stft(rng, kind):
     objs["@spy"] = {"type": "ola", "name": "spy"}
     objs["@list"] = {"type": "ola", "name": "list"}
     normalize = None
-    if ola in ("@spy", "@list") or kind in ("ola_none", "bad"):
+    if ola in ("@spy", "@list") or kind == "bad":
         if identity:
             mode = rng.choice(["rect_norm", "cola_nonorm", "ones_nonorm"]) if wa in ("absent", "none", "ones") else "ones_nonorm"
             if mode == "rect_norm":
@@ -631,6 +680,28 @@ def impl(c):
                 "floats": sum(1 for x in out if isinstance(x, float))}
     if c["entry"] == "stft":
         return _impl_stft(c)
+    if c["entry"] == "ola_sig":
+        from audiolazy import Stream, blocks
+        out, err = [], None
+        try:
+            sig = [_py(x, c["num"]) for x in c["sig"]]
+            if c.get("route") == "stream":
+                blk_sig = Stream(sig).blocks(size=c["bsize"], hop=c["bhop"])
+            else:
+                blk_sig = blocks(iter(sig), c["bsize"], c["bhop"])
+            kw = {"normalize": c["normalize"]}
+            if c["size"] is not None:
+                kw["size"] = c["size"]
+            if c["hop"] is not None:
+                kw["hop"] = c["hop"]
+            w = _py_wnd(c)
+            if w is not None:
+                kw["wnd"] = w
+            for x in overlap_add.list(blk_sig, **kw):
+                out.append(x)
+        except Exception as e:
+            err = _err_obs(e)
+        return {"out": [enc(x) for x in out], "err": err, "floats": sum(1 for x in out if isinstance(x, float))}
     raise ValueError("unknown entry " + c["entry"])
 
 
@@ -734,11 +805,12 @@ def _compare_stft(c, io, drv):
 
 
 def compare(c, io, drv):
+    _LAST[id(c)] = drv
     if c["entry"] == "stft":
         return _compare_stft(c, io, drv)
     out = []
     regime = c.get("regime", "float")
-    if c["entry"] == "ola":
+    if c["entry"] in ("ola", "ola_sig"):
         if "out" not in io:
             return [("model", "impl observation failed: %r" % (io,)), ("spec", "impl observation failed")]
         m = drv["model"]
@@ -753,12 +825,24 @@ def compare(c, io, drv):
             elif not _same_list(io["out"], s["out"], regime):
                 out.append(("spec", "output differs from the windowed hop-shifted sum (%s): impl=%r spec=%r gain=%r"
                             % (regime, io["out"], s["out"], s.get("gain"))))
+        cov = drv.get("covered")
+        if cov is not None:
+            if io["err"] is not None:
+                out.append(("spec", "blocks -> overlap-add raised %r" % (io["err"],)))
+            else:
+                bad = [(n, io["out"][n] if n < len(io["out"]) else None, x) for n, x in cov
+                       if n >= len(io["out"]) or not close(dec(io["out"][n]), dec(x), 0 if regime == "exact" else TOL)]
+                if bad:
+                    out.append(("spec", "overlap-add of the blocks does not give back the covered samples (n, got, input): %r"
+                                % (bad[:5],)))
     return out
 
 
 def nontrivial(c, io):
     if c["entry"] == "stft":
         return io.get("err") is None and len(io.get("trace") or []) >= 1
+    if c["entry"] == "ola_sig":
+        return io.get("err") is None and len(io.get("out", [])) >= 1
     return io.get("err") is None and len(c.get("blks", [])) >= 1 and len(io.get("out", [])) >= 1
 
 
@@ -780,10 +864,23 @@ def _tally_stft(eng, c, io):
 
 
 def tally(eng, c, io):
+    drv = _LAST.pop(id(c), None) or {}
     if c["entry"] == "stft":
+        sp = drv.get("spec") or {}
+        eng.count("stft_spec_identity_reconstruction", "checked on %s samples" % ("0" if not sp.get("covered") else "1+")
+                  if sp.get("covered") is not None else "hypotheses not met")
+        eng.count("stft_spec_window_first", "checked" if sp.get("func_inputs") else "no block / error")
         return _tally_stft(eng, c, io)
+    if c["entry"] == "ola_sig":
+        eng.count("roundtrip", "COLA: covered samples checked" if drv.get("covered") else
+                  ("COLA but no covered sample" if drv.get("covered") is not None else "not COLA: sum formula only"))
+        eng.count("roundtrip_regime", c.get("regime"))
+        eng.count("roundtrip_blocks", min(8, drv.get("n_blocks", 0)))
+        eng.count("roundtrip_impl_error", (io.get("err") or {}).get("tag", "none"))
+        return
     if c["entry"] != "ola":
         return
+    eng.count("ola_spec", "property speaks" if drv.get("spec") is not None else "outside the quantifier (model only)")
     m = len(c["blks"])
     size = c["size"] if c["size"] is not None else (len(c["blks"][0]) if c["blks"] else None)
     hop = c["hop"] if c["hop"] is not None else size
@@ -817,6 +914,12 @@ def _relabel(c):
     return c
 
 
+def _relabel_sig(c):
+    c = dict(c)
+    c["regime"] = _regime(dict(c, blks=[c["sig"]], size=c["bsize"]))
+    return c
+
+
 def _resize(c, size):
     """same case with another block size (blocks and list window cut / padded with 1)"""
     old = c["size"] if c["size"] is not None else (len(c["blks"][0]) if c["blks"] else size)
@@ -833,8 +936,67 @@ def _resize(c, size):
 
 
 def shrink(c):
+    """smaller cases; never wanders into the configuration of the known defect D7 (size detection on no block),
+    so that a different failure is not minimised into the known one"""
+    if c["entry"] == "stft":
+        for d in _shrink_stft(c):
+            yield d
+        return
+    if c["entry"] == "ola_sig":
+        sig = c["sig"]
+        min_len = 0 if c["size"] is not None else 1    # keep away from D7 (no block + size detection)
+        if len(sig) > min_len:
+            yield dict(c, sig=sig[:-1])
+            yield dict(c, sig=sig[1:])
+        if any(x not in (0, 1) for x in sig):
+            yield _relabel_sig(dict(c, sig=[1] * len(sig)))
+        if c["wnd"] is not None:
+            yield _relabel_sig(dict(c, wnd=None, wkind="none"))
+        if c["normalize"]:
+            yield _relabel_sig(dict(c, normalize=False))
+        if c["size"] is None:
+            yield dict(c, size=c["bsize"])
+        return
     if c["entry"] != "ola":
         return
+    d7 = c["size"] is None and not c["blks"]
+    for d in _shrink_ola(c):
+        if d7 or not (d["size"] is None and not d["blks"]):
+            yield d
+
+
+def _shrink_stft(c):
+    sig = c["sig"]
+    if sig:
+        yield dict(c, sig=sig[:-1])
+        yield dict(c, sig=sig[1:])
+    if any(x not in (0, 1) for x in sig):
+        yield dict(c, sig=[1] * len(sig))
+    # drop one keyword anywhere
+    levels = c["chain"] + [c["call"]]
+    for li, lv in enumerate(levels):
+        for ki in range(len(lv)):
+            nl = [list(x) for x in levels]
+            nl[li] = lv[:ki] + lv[ki + 1:]
+            yield dict(c, chain=nl[:-1], call=nl[-1])
+    # merge the levels of a partial chain
+    if len(c["chain"]) > 1:
+        merged = {}
+        for lv in c["chain"]:
+            for k, v in lv:
+                merged[k] = v
+        yield dict(c, chain=[[[k, v] for k, v in merged.items()]], style="direct")
+    if c["style"] != "direct" and len(c["chain"]) == 1:
+        yield dict(c, style="direct")
+    # simpler processing functions / windows
+    for tag, o in c["objs"].items():
+        if o["type"] == "fn" and o["name"] != "id":
+            yield dict(c, objs=dict(c["objs"], **{tag: dict(o, name="id")}))
+        if o["type"] == "wnd" and o["wnd"].get("kind") == "seq" and any(x != 1 for x in o["wnd"]["w"]):
+            yield dict(c, objs=dict(c["objs"], **{tag: dict(o, wnd={"kind": "seq", "w": [1] * len(o["wnd"]["w"])}, wkind="list")}))
+
+
+def _shrink_ola(c):
     blks = c["blks"]
     for i in range(len(blks)):
         yield _relabel(dict(c, blks=blks[:i] + blks[i + 1:]))
@@ -909,4 +1071,22 @@ def classify(c, io, drv):
         if len(io.get("out", [])) != len(m.get("out", [])):
             return "ola:length"
         return "ola:content"
+    if c["entry"] == "ola_sig":
+        e = io.get("err")
+        if e is not None and c["size"] is None and drv.get("n_blocks") == 0 and e["tag"] == "generator-raised-StopIteration":
+            return "ola:size-detection-on-empty-block-stream:RuntimeError"
+        if e is not None:
+            return "roundtrip:error:%s:%s" % (e["kind"], e["tag"])
+        return "roundtrip:content"
+    if c["entry"] == "stft":
+        e = io.get("err")
+        m = drv.get("model", {})
+        if "plan_err" in m or (e is not None and e.get("where") == "plan"):
+            return "stft:keywords:%s" % ((e or {}).get("tag", "accepted").split(":")[0],)
+        if e is not None:
+            return "stft:error:%s:%s" % (e["kind"], e["tag"])
+        plan = m.get("plan", {})
+        if plan.get("ola") == "@spy" and io.get("ola_kwargs") != plan.get("ola_params"):
+            return "stft:ola-keywords"
+        return "stft:content"
     return "unclassified"
